@@ -226,6 +226,22 @@ fn main() {
         }}}
         let secs = [RVar::Epoch, RVar::PreRelease, RVar::Post, RVar::Dev];
         for i in 0..4 { for j in 0..4 { rule_schemas.push(RSchema { core: vec![V(RVar::Major)], extra_core: vec![V(secs[i].clone()), V(secs[j].clone())], ..Default::default() }); rule_schemas.push(RSchema { core: vec![V(RVar::Major)], extra_core: vec![V(secs[i].clone()), Str("x".into()), V(secs[j].clone())], ..Default::default() }); } }
+        // exhaustive schema programs: every sequence up to a length over a per-section component alphabet (valid or
+        // not), the other sections holding a valid skeleton; then the full product of short sequences across sections
+        fn seqs(alpha: &[RComp], max: usize) -> Vec<Vec<RComp>> {
+            let mut out: Vec<Vec<RComp>> = vec![vec![]];
+            let mut lvl: Vec<Vec<RComp>> = vec![vec![]];
+            for _ in 0..max { let mut next = vec![]; for p in &lvl { for c in alpha { let mut n = p.clone(); n.push(c.clone()); next.push(n); } } out.extend(next.iter().cloned()); lvl = next; }
+            out
+        }
+        let core_alpha = [V(RVar::Major), V(RVar::Minor), V(RVar::Patch), V(RVar::Epoch), Str("x".into()), V(RVar::Distance)];
+        let extra_alpha = [V(RVar::Epoch), V(RVar::PreRelease), V(RVar::Post), V(RVar::Dev), V(RVar::Minor), Str("x".into())];
+        let build_alpha = [Str("b".into()), V(RVar::Major), V(RVar::Dev), V(RVar::Ts("YYYY".into())), V(RVar::Ts("bad".into())), V(RVar::BumpedBranch)];
+        let (lc, le, lb) = if quick { (4, 4, 2) } else { (5, 5, 3) };
+        for c in seqs(&core_alpha, lc) { rule_schemas.push(RSchema { core: c, extra_core: vec![V(RVar::PreRelease)], build: vec![Str("b".into())] }); }
+        for e in seqs(&extra_alpha, le) { rule_schemas.push(RSchema { core: vec![V(RVar::Major), V(RVar::Patch)], extra_core: e, build: vec![] }); }
+        for b in seqs(&build_alpha, lb) { rule_schemas.push(RSchema { core: vec![V(RVar::Minor)], extra_core: vec![V(RVar::Dev), V(RVar::Epoch)], build: b }); }
+        for c in seqs(&core_alpha, 2) { for e in seqs(&extra_alpha, 2) { for b in seqs(&build_alpha, 1) { rule_schemas.push(RSchema { core: c.clone(), extra_core: e.clone(), build: b }); } } }
         rule_schemas.push(RSchema { core: vec![], extra_core: vec![], build: vec![UInt(1)] });
         rule_schemas.push(RSchema { core: vec![Str("".into())], ..Default::default() });
     }
@@ -288,7 +304,7 @@ fn main() {
     cov.evaluations = cov.transitions;
     cov.traces_validated = cov.transitions;
     cov.distinct_nontrivial = objects.len() as u64 + all.get("mutants_accepted") + all.get("invalid_schema_refused");
-    cov.rule = format!("(a) {} objects: each string variable over {} nasty strings, each numeric variable over [0,1,2^63,2^64-1], custom over {} JSON shapes, under 22 presets + 3 custom schemas, plus nasty text inside schema literals{}: parse(emit(z))==z and byte-identical re-emission; (a2) {} pipe jobs (version and flow, sources none/stdin, overrides/bumps incl. epoch 0) x 5 renderings: direct == piped; (c) {} structurally generated schemas (every variable in every section, all orders/duplications of Major/Minor/Patch, all pairs of secondaries, timestamp patterns, empty) on 4 entry paths: accepted iff R-SCH valid; (b) {} document mutants (byte deletions/substitutions, stride {stride}) + garbage: no panic, rendered only if parseable with a valid schema", objects.len(), strs.len(), customs.len(), if quick { "" } else { " and all (string, custom) pairs" }, pipe_jobs.len(), rule_schemas.len(), mutants.len());
+    cov.rule = format!("(a) {} objects: each string variable over {} nasty strings, each numeric variable over [0,1,2^63,2^64-1], custom over {} JSON shapes, under 22 presets + 3 custom schemas, plus nasty text inside schema literals{}: parse(emit(z))==z and byte-identical re-emission; (a2) {} pipe jobs (version and flow, sources none/stdin, overrides/bumps incl. epoch 0) x 5 renderings: direct == piped; (c) {} structurally generated schemas (every variable in every section, all orders/duplications of Major/Minor/Patch, all pairs of secondaries, timestamp patterns, empty; every component sequence up to length 4/4/2 (thorough 5/5/3) over a 6-symbol alphabet per section with the other sections valid, and the full product of sequences of length <=2 x <=2 x <=1 across sections) on 4 entry paths: accepted iff R-SCH valid; (b) {} document mutants (byte deletions/substitutions, stride {stride}) + garbage: no panic, rendered only if parseable with a valid schema", objects.len(), strs.len(), customs.len(), if quick { "" } else { " and all (string, custom) pairs" }, pipe_jobs.len(), rule_schemas.len(), mutants.len());
     cov.exhaustive = true;
     cov.samples = vec![json!(objects[7].0), json!({"cmd": pipe_jobs[3].0, "args": pipe_jobs[3].1}), json!(sch::ron_schema(&rule_schemas[40])), json!(truncate(&mutants[100], 100))];
     cov.set("clause_counts", all.to_json());
